@@ -62,7 +62,7 @@ func c44(c *engine.Ctx) {
 	for _, f := range set {
 		nsites += c44MayPanic(c, p, f)
 	}
-	c.Floor("may-panic", nsites, 7)
+	c.Floor("may-panic", nsites, 5)
 	// nil-safe receivers of the bit array methods
 	for _, n := range []string{"Size", "GetIndex", "NumTrueBitsBefore"} {
 		f := p.Func(B + n)
